@@ -411,19 +411,26 @@ def shrink_text_case(prop, line, hbin):
         # whole text as the only line set: every prefix/suffix would need boundaries; use the full paragraph lines
         g = list(f); g[4] = ",".join(us) if us else "-"; g[6] = "-"
         return "\t".join(g)
-    # try without lines first (only for properties about stored results)
+    # ddmin on the characters (only for properties about stored results; lines dropped), bounded
     best = line
-    if prop in ("C01", "C02", "C08", "C10", "C11", "C12", "C13", "C16", "C17") and fails(mk(units)):
+    budget = [60]
+    def try_(us):
+        if budget[0] <= 0: return False
+        budget[0] -= 1
+        return fails(mk(us))
+    if prop in ("C01", "C02", "C08", "C10", "C11", "C12", "C16", "C17") and try_(units):
         best = mk(units)
-        changed = True
-        while changed and len(units) > 1:
-            changed = False
-            for i in range(len(units)):
-                cand = units[:i] + units[i + 1:]
-                if enc == "16":
-                    pass
-                if fails(mk(cand)):
-                    units = cand; best = mk(cand); changed = True; break
+        chunk = max(1, len(units) // 2)
+        while chunk >= 1 and budget[0] > 0 and len(units) > 1:
+            i, changed = 0, False
+            while i < len(units) and budget[0] > 0:
+                cand = units[:i] + units[i + chunk:]
+                if cand and try_(cand):
+                    units = cand; best = mk(cand); changed = True
+                else:
+                    i += chunk
+            if not changed or chunk > 1:
+                chunk //= 2
     return best
 
 # ---------------------------------------------------------------------------------------------
